@@ -21,7 +21,7 @@ COQ = os.path.join(VERIF, 'coq')
 EXTRACT = os.path.join(COQ, 'extract')
 DRIVER = os.path.join(EXTRACT, 'driver')
 WORK = os.path.join(VERIF, '.work')
-EVID = os.path.join(VERIF, 'evidence')
+EVID = os.environ.get('VERIF_EVIDENCE_DIR') or os.path.join(VERIF, 'evidence')   # override: self-validation runs only
 REPLAYS = os.path.join(VERIF, 'replays')
 KNOWN = os.path.join(VERIF, 'known_findings.json')
 
